@@ -293,7 +293,8 @@ var patternCatalog = []c05pat{{"[a-z]+", false}, {"[0-9]{2}", false}, {"a.*", fa
 func genC05Type(c *core.Ctx, idx int) *c05type {
 	r := c.Rand
 	bases := []string{"int8", "uint8", "int16", "uint16", "int32", "uint32", "int64", "uint64", "decimal64", "string", "string", "string", "enumeration", "bits", "identityref", "binary"}
-	t := &c05type{base: bases[idx%len(bases)], list: idx%4 == 3}
+	// (the number of bases is a multiple of 4: take the list flag from another digit of idx so that every base comes as a leaf-list too)
+	t := &c05type{base: bases[idx%len(bases)], list: (idx+idx/len(bases))%4 == 3}
 	nlev := 1 + r.Intn(3)
 	switch t.base {
 	case "enumeration":
